@@ -197,6 +197,14 @@ def run(repo, rep):
             if loopvar and (loopvar + '.value') in ff.text:
                 out.add((ff.text, ff.pol))
         return out
+    inits = [a for a in ast.walk(f.node) if isinstance(a, ast.Assign) and src(a.targets[0]) == stack]
+    par16 = enclosing_map(f.node)
+    n += 1
+    in_loop = [a for a in inits if any(isinstance(x, (ast.For, ast.While)) for x in _anc16(a, par16))]
+    rep.check(len(inits) == 1 and not in_loop and src(inits[0].value) == '[]', 'C16.b', 'stack:initialised-once-before-the-loop', f.where,
+              'one colour stack for the whole document',
+              'the colour stack is (re)initialised %s: a token spanning several lines loses its enclosing colour and the final reset'
+              % ('inside a loop (line %d)' % in_loop[0].lineno if in_loop else '%d times' % len(inits)), nontrivial=True)
     push_guard = value_guards(appends[0])
     n += 1
     rep.check(bool(push_guard), 'C16.b', 'push:guarded-by-token-test', '%s:%d' % (m.relpath, appends[0].lineno),
@@ -244,7 +252,7 @@ def run(repo, rep):
     rep.check(okc, 'C16.c', 'final-reset', f.where, 'non-empty stack is reset at the end',
               'colored_render_to_stream no longer ends with "if %s: %s.write(str(colorful.reset))"' % (stack, stream), nontrivial=True)
     # cache correctness: colour cached per token value
-    rep.floor('C16.b+c', n, 7)
+    rep.floor('C16.b+c', n, 8)
 
     # ---------------------------------------------------------------- C16.d / C16.e
     n = 0
@@ -354,6 +362,15 @@ def run(repo, rep):
                   'only style strings are written besides text and line breaks',
                   'the coloured renderer writes %s besides text, line breaks and style strings' % a, nontrivial=True)
     rep.floor('C16.f', n, 8)
+
+
+def _anc16(node, par):
+    out = []
+    p = par.get(id(node))
+    while p is not None:
+        out.append(p)
+        p = par.get(id(p))
+    return out
 
 
 def _fn_of(mod, node):
